@@ -9,11 +9,18 @@ use crate::tape::Tape;
 use serde_json::json;
 
 pub struct Projection {
+    name: &'static str,
     opts: GenOpts,
 }
 
 pub fn parts() -> Vec<Box<dyn Part>> {
-    vec![Box::new(Projection { opts: GenOpts { min_cp: 2, max_cp: 3, allow_repeat: false, allow_generics: true, ..GenOpts::default() } })]
+    vec![
+        Box::new(Projection { name: "projection", opts: GenOpts { min_cp: 2, max_cp: 3, allow_repeat: false, allow_generics: true, ..GenOpts::default() } }),
+        // member-level repeat blocks on top (seeded change C06-9): a repeated instruction reaches the following members for every
+        // counterpart it concerns, whatever instructions dedicated to other counterparts those members carry. Trait-level
+        // repeat() stays out: it deliberately makes one counterpart's params depend on another's instruction.
+        Box::new(Projection { name: "projection-repeat", opts: GenOpts { min_cp: 2, max_cp: 3, allow_repeat: false, member_repeat_only: true, repeat_heavy: true, allow_generics: false, ..GenOpts::default() } }),
+    ]
 }
 
 /// Remove every trait instruction for a counterpart other than `keep` and every instruction dedicated to another one.
@@ -50,18 +57,18 @@ pub fn project(item: &Item, keep: &str) -> (Item, usize, usize) {
 
 impl Part for Projection {
     fn name(&self) -> &'static str {
-        "projection"
+        self.name
     }
     fn prop(&self) -> &'static str {
         "C06"
     }
     fn rule(&self) -> String {
-        "Valid-mode L1 inputs (structs with ghosts / child / child_parents / parent / where_clause, enums with type_hint / ghosts / literal / pattern) mapped to 2-3 counterparts, every instruction kind in default and dedicated form, no repeat. Oracle (projection): for a random counterpart A, proj_A removes every trait instruction for another counterpart and every instruction dedicated to another counterpart; the impls keyed to A in derive(input) must equal, as a multiset of token strings, the impls of derive(proj_A(input)) (compared when both are accepted). Non-trivial = both accepted and >= 1 instruction dedicated to a counterpart other than A was removed; distinct by input text.".into()
+        "Valid-mode L1 inputs (structs with ghosts / child / child_parents / parent / where_clause, enums with type_hint / ghosts / literal / pattern) mapped to 2-3 counterparts, every instruction kind in default and dedicated form; part `projection` without repeat, part `projection-repeat` with member-level repeat / skip_repeat / stop_repeat blocks (no trait-level repeat()). Oracle (projection): for a random counterpart A, proj_A removes every trait instruction for another counterpart and every instruction dedicated to another counterpart; the impls keyed to A in derive(input) must equal, as a multiset of token strings, the impls of derive(proj_A(input)) (compared when both are accepted; in part `projection` a derive(input) that is rejected while derive(proj_A(input)) is accepted is a violation too - its inputs are valid by construction -, in part `projection-repeat` that case is not judged, because a repeated instruction meeting a written one is a duplicate of the user's making). Non-trivial = both accepted and >= 1 instruction dedicated to a counterpart other than A was removed; distinct by input text.".into()
     }
     fn cases(&self, tier: Tier) -> usize {
         match tier {
-            Tier::Quick => 24_000,
-            Tier::Thorough => 1_200_000,
+            Tier::Quick => if self.name == "projection" { 72_000 } else { 48_000 },
+            Tier::Thorough => if self.name == "projection" { 1_200_000 } else { 800_000 },
         }
     }
     fn max_tape(&self) -> usize {
@@ -89,6 +96,12 @@ impl Part for Projection {
             (Exp::Ok { items: a, .. }, Exp::Ok { items: b, .. }) => (a, b),
             // the instructions that concern only the other counterparts make the whole derive fail: the impls for this
             // counterpart are then not the ones its own instructions generate
+            // with repeat blocks on top the input is no longer valid by construction (a repeated instruction meeting a written one
+            // is a duplicate the user wrote, and is reported as such): a rejection of the whole input is not judged there
+            (Exp::Other(crate::xp::Outcome::Err(_)), Exp::Ok { .. }) if self.opts.member_repeat_only => {
+                labels.push("rejected-with-others-present(not judged under repeat)".into());
+                return CaseReport { key: text, nontrivial: false, labels, verdict: Verdict::Pass };
+            }
             (Exp::Other(crate::xp::Outcome::Err(msgs)), Exp::Ok { .. }) => {
                 labels.push("rejected-only-with-others-present".into());
                 return CaseReport {
